@@ -54,24 +54,28 @@ def owned_ids(roots):
 
 
 def instance_census(roots):
-    """(counts, payload): number of live, not harness-owned instances per emmet.* class and
-    the summed size of the containers hanging off them (a long-lived object whose lists
+    """(counts, payload, alive): number of live, not harness-owned instances per emmet.* class,
+    their identities (id -> class; an identical repeated call must not leave NEW library
+    objects alive even if it drops as many old ones: "the tree of the last call" is
+    per-call data too) and the summed size of the containers hanging off them (a long-lived object whose lists
     grow with every call - e.g. a memoised snippet collecting dependencies - keeps per-call
     data alive without any new instance appearing)."""
     gc.collect()
     owned = owned_ids(roots)
     counts = {}
     payload = {}
+    alive = {}
     seen = set()
     for o in gc.get_objects():
         t = type(o)
         if _is_lib_type(t) and id(o) not in owned:
             key = '%s.%s' % (t.__module__, t.__qualname__)
             counts[key] = counts.get(key, 0) + 1
+            alive[id(o)] = key
             size = _payload(o, seen)
             if size:
                 payload[key] = payload.get(key, 0) + size
-    return counts, payload
+    return counts, payload, alive
 
 
 def _payload(obj, seen):
